@@ -133,8 +133,6 @@ def deleteExec (pop : Pop) (r : Nat) : Pop :=
   pop.filter (fun n => !(cascade pop pop.length [r]).contains n.id)
 
 inductive Err where
-  /-- `datetime.timedelta(minutes=None)` -> TypeError in `run_execution_expiration_policy` -/
-  | olderThanUnset
   /-- `delete_workflow_execution` raised (row vanished / DB error); the `except` handler's
       `traceback.format_exc(e)` then raises TypeError, which leaves `_delete`, rolls the
       batch's transaction back and aborts the evaluation. -/
@@ -177,10 +175,12 @@ def loop (fetch : Pop → List Nat) (env : Env) : Nat → Pop → Outcome
       | .error e => .crashed e pop
       | .ok pop' => loop fetch env f pop'
 
-/-- `run_execution_expiration_policy`; `now` = `timeutils.utcnow()` in seconds. -/
+/-- `run_execution_expiration_policy` + `_delete_executions`; `now` = `timeutils.utcnow()` in
+    seconds.  `older_than` unset: `exp_time = None` and the age pass is skipped (since /repo
+    commit 2457b86b; before it `timedelta(minutes=None)` raised TypeError). -/
 def evaluate (cfg : Config) (env : Env) (now : Int) (fuel : Nat) (pop : Pop) : Outcome :=
   match cfg.olderThan with
-  | none => .crashed .olderThanUnset pop
+  | none => loop (superfluousIds cfg) env fuel pop
   | some ot =>
     match loop (expiredIds cfg (now - ot * 60)) env fuel pop with
     | .ok p1 => loop (superfluousIds cfg) env fuel p1
